@@ -8,7 +8,7 @@ from props import util
 
 THEOREMS = ['C08_window_steps', 'C08_outside_selects_nothing', 'C08_empty_asset_inert', 'C08_empty_asset_inert_anywhere',
             'C08_take_outside_inert', 'C08_take_prorated', 'C08_order_outside_inert', 'C08_order_outside_append',
-            'C08_free_variable_inert']
+            'C08_free_variable_inert', 'C08_earlier_horizon_keeps_window']
 CFG = {'p_inflow': 0.6, 'p_coarse': 0.3, 'coarse_windows': True, 'coarse_any': True, 'p_periodic': 0.0, 'T': (3, 9), 'n_assets': (1, 4), 'nodes': (1, 3), 'p_window': 0.6, 'p_market': 0.9,
        'window_kinds': ['inside', 'inside', 'left', 'right', 'straddle_l', 'straddle_r', 'before', 'after', 'offgrid'],
        'take_kinds': ['inside', 'whole', 'straddle_r', 'straddle_l', 'outside', 'outside'],
